@@ -420,6 +420,29 @@ Theorem C19_closed :
 Proof. exact ok_closed. Qed.
 Print Assumptions C19_closed.
 
+(* Schedules: on a healthy target (no fault, not a file store) the result of every call of a history is a
+   function of that call's input alone (pure_result: the exact rejection error, ErrInvalidDateTimeFormat, or
+   the descriptor and manifest) -- not of the target's content, of earlier calls or of the order; so the
+   same calls made in any other order on any other healthy target return the same results, call for call. *)
+Theorem C19_history_results_are_functions_of_the_calls :
+  forall (marshal : manifest -> str) (H : str -> str), H empty_json = empty_json_digest ->
+  forall tc cs s s' rs,
+    t_key tc <> KFile ->
+    run_calls marshal H tc None s cs = (s', rs) -> rs = map (pure_result marshal H) cs.
+Proof. exact history_results_pure. Qed.
+Print Assumptions C19_history_results_are_functions_of_the_calls.
+
+Theorem C19_history_order_irrelevant :
+  forall (marshal : manifest -> str) (H : str -> str), H empty_json = empty_json_digest ->
+  forall tc1 tc2 cs cs' s1 s2 s1' s2' rs rs',
+    t_key tc1 <> KFile -> t_key tc2 <> KFile ->
+    Permutation cs cs' ->
+    run_calls marshal H tc1 None s1 cs = (s1', rs) ->
+    run_calls marshal H tc2 None s2 cs' = (s2', rs') ->
+    Permutation rs rs' /\ (forall c r, In (c, r) (combine cs rs) -> In (c, r) (combine cs' rs')).
+Proof. exact history_order_irrelevant. Qed.
+Print Assumptions C19_history_order_irrelevant.
+
 (* "so the result can be copied": with the caller's own descriptors present in the target, the new
    manifest and every successor of it answer Exists afterwards (source closed one level down from the
    new root; deeper levels are the caller's graph).  CopyGraph itself stays the harness oracle. *)
